@@ -15,6 +15,7 @@ import sqlalchemy as sqa
 
 from pydiverse.common import (
     Dtype,
+    Duration,
     Float,
     Float64,
     Int,
@@ -24,6 +25,7 @@ from pydiverse.common import (
 )
 from pydiverse.transform._internal.backend.table_impl import TableImpl
 from pydiverse.transform._internal.backend.targets import Polars, SqlAlchemy, Target
+from pydiverse.transform._internal.errors import NotSupportedError
 from pydiverse.transform._internal.ops import ops
 from pydiverse.transform._internal.ops.op import Ftype
 from pydiverse.transform._internal.pipe.table import Cache
@@ -59,6 +61,9 @@ class Query:
 
 
 class SqlImpl(TableImpl):
+    # SQLAlchemy cannot render a `timedelta` literal for dialects without an interval type
+    has_duration_literals = True
+
     def __new__(cls, *args, **kwargs) -> "SqlImpl":
         engine: str | sqa.Engine = inspect.signature(cls.__init__).bind(None, *args, **kwargs).arguments["conf"].engine
 
@@ -333,6 +338,8 @@ class SqlImpl(TableImpl):
             return res
 
         elif isinstance(expr, LiteralCol):
+            if not cls.has_duration_literals and isinstance(types.without_const(expr.dtype()), Duration):
+                raise NotSupportedError(f"duration literals are not supported by the backend `{cls.backend_name}`")
             return cls.compile_lit(expr) if compile_literals else expr.val
 
         elif isinstance(expr, Cast):
